@@ -11,6 +11,7 @@ import PV.Spec.Fields
 import PV.Model.Table
 import PV.Spec.Map
 import PV.Spec.TableInv
+import PV.Model.Fold
 import PV.Spec.Base64
 /-
 One function per unit: `List String` (the operation's arguments) to one output line.
@@ -202,6 +203,17 @@ def table (op : String) (args : List String) : String :=
     | none => "bad-op"
   | _, _ => "bad-op"
 
+def fold (op : String) (args : List String) : String :=
+  match op, args with
+  | "wrap", [w, keep, ds, h] =>
+    match w.toNat?, natList ds, unhex h with
+    | some w, some ds, some line =>
+      match PV.Fold.wrapLines line { width := w, keep := keep == "1", delims := ds } with
+      | some ps => s!"ok {ps.length}" ++ String.join (ps.map (fun (p, d) => " " ++ hex p ++ "/" ++ hex d))
+      | none => "ERR:notutf8"
+    | _, _, _ => "bad-op"
+  | _, _ => "bad-op"
+
 def dispatch (line : String) : String :=
   match words line with
   | [] => "bad-op"
@@ -212,6 +224,7 @@ def dispatch (line : String) : String :=
     | ["b64", op] => b64 op args
     | ["docenc", op] => docenc op args
     | ["murmur", op] => murmur op args
+    | ["fold", op] => fold op args
     | ["murmur", "spec", op] => murmur ("spec." ++ op) args
     | ["fields", op] => fields op args
     | ["fields", "spec", op] => fields ("spec." ++ op) args
